@@ -104,7 +104,10 @@ Fixpoint eval_bu (ds : dataset) (g : graph) (p : alg) {struct p} : list sol :=
                     end) (eval_bu ds g q)
   | Values rows => rows
   | Project q vs => map (restrict (fun v => memv v vs)) (eval_bu ds g q)
-  | Graph (Tm t) q => eval_bu ds (named_graph (ds_named ds) t) q
+  | Graph (Tm t) q =>
+      (* 18.5: the empty multiset when the IRI is not a graph name of the dataset *)
+      if existsb (fun ng => N.eqb (fst ng) t) (ds_named ds)
+      then eval_bu ds (named_graph (ds_named ds) t) q else []
   | Graph (Vr v) q =>
       flat_map (fun ng => join_lists (eval_bu ds (snd ng) q) [[(v, fst ng)]]) (ds_named ds)
   | Distinct q => dedup (eval_bu ds g q)
